@@ -1,167 +1,643 @@
-"""C14 - include is textual splicing, resolved independently of the working directory."""
+"""C14 - include is textual splicing, resolved independently of the working directory.
+
+All rules are stated over the provenance dataflow of `bbverif.prov` (kinds of path values, reaching definitions, summaries of
+helpers / closures / attributes) and over path summaries of the reader loop; none of them looks at variable or helper names.
+The only anchors are the public entry points `assemble`, `cli_main` and the reader `read_lines` (the function that reads a
+file and calls itself for included files)."""
 import ast
 
 from ..core import Report, Finding, AnalysisError
 from ..facts import Facts
-from ..astutil import unparse, dotted, walk_no_nested
+from ..astutil import unparse, dotted
 from ..callgraph import CallGraph
-from ..prov import Prov
-from ..pathwalk import loop_paths, show, is_const, C
-from .c16 import reachable, getcwd_allowed
+from ..prov import Prov, DIRKINDS, coarse, is_cwd_expr, walk_fn
+from ..pathwalk import MUTATORS, show
+from ..hwalk import loop_paths_h, function_paths
+from ..immsites import find_all
 
 LEVEL = 'other'
+BAD = {'RawToken', 'Literal'}
+UNCLASSIFIED = {'Unknown', 'ObjAttrs', 'CliArgs'}
 
 
-def check_sinks(rep, facts, cg, pv, rule):
-    reach = sorted(reachable(cg, 'assemble'))
+def stmt_of(node):
+    cur = node
+    while cur is not None and not isinstance(cur, ast.stmt):
+        cur = getattr(cur, '_parent', None)
+    return cur if cur is not None else node
+
+
+def defer(rep, message):
+    """An "I do not understand this" verdict that must not mask a violation established elsewhere: raised at the end of the run
+    only when no finding was made."""
+    rep.__dict__.setdefault('deferred', []).append(message)
+
+
+def raise_deferred(rep):
+    if not rep.findings and rep.__dict__.get('deferred'):
+        raise AnalysisError(rep.deferred[0])
+
+
+def only_reported(node):
+    """The value is merely an argument of a logging / print call (it takes no part in finding files)."""
+    p = getattr(node, '_parent', None)
+    while p is not None and not isinstance(p, ast.stmt):
+        if isinstance(p, ast.Call) and ((dotted(p.func) or '').split('.')[0] in ('log', 'logging', 'logger', 'warnings') or dotted(p.func) == 'print'):
+            return True
+        p = getattr(p, '_parent', None)
+    return False
+
+
+def classify_sink(pv, q, name, arg):
+    """('ok' | 'bad' | 'unknown', kinds) for the path argument of a filesystem call."""
+    ks = set(pv.kinds(arg, q)) - {'NoneK'}
+    if ks & BAD:
+        return 'bad', ks
+    if ks & UNCLASSIFIED or not ks:
+        return 'unknown', ks
+    return 'ok', ks
+
+
+def check_sinks(rep, facts, cg, pv, rule, reach):
     sinks = pv.sinks(reach)
     rep.analysed['filesystem sinks reachable from assemble'] = len(sinks)
+    roles = {'sinks that read a file': 0, 'sinks given the caller\'s own path': 0, 'sinks given a path the include search returned': 0}
     for q, node, name, arg in sinks:
-        k = pv.kind(arg, q)
-        ok = k in ('Resolved', 'UserGiven')
-        rep.check(ok, rule, '{}: {}({}) receives a {} path'.format(q, name, unparse(arg), k),
-                  lambda q=q, node=node, name=name, arg=arg, k=k: Finding(rule, q, node,
-                                                                          '{}({}) is given a path of kind {}: text taken from the source line is resolved against the process working directory, '
-                                                                          'not against the including file or the -i directories'.format(name, unparse(arg), k), line=node.lineno))
+        verdict, ks = classify_sink(pv, q, name, arg)
+        if name.split('.')[-1] in ('open', 'read_text', 'read_bytes'):
+            roles['sinks that read a file'] += 1
+        if 'UserGiven' in ks:
+            roles['sinks given the caller\'s own path'] += 1
+        if ks == {'Resolved'}:
+            roles['sinks given a path the include search returned'] += 1
+        if verdict == 'unknown':
+            defer(rep, '{}: the path given to {}({}) could not be classified (kinds {}): no verdict'.format(q, name, unparse(arg), sorted(ks) or ['none']))
+            continue
+        k = coarse(ks)
+        rep.check(verdict == 'ok', rule, '{}: {}({}) receives a {} path'.format(q, name, unparse(arg), k),
+                  lambda q=q, node=node, name=name, arg=arg, ks=ks: Finding(
+                      rule, q, node, '{}({}) is given a path of kind {}: text taken from the source line (or a literal) is resolved against the process '
+                      'working directory, not against the including file or the -i directories'.format(name, unparse(arg), '/'.join(sorted(ks & BAD))),
+                      line=node.lineno))
     for q in reach:
-        for n in walk_no_nested(cg.funcs[q]):
-            if isinstance(n, ast.Call) and dotted(n.func) == 'os.getcwd':
-                rep.check(getcwd_allowed(cg.funcs[q], n), rule + '.cwd', '{}: os.getcwd() only when the input is a source string'.format(q),
+        for n in walk_fn(cg.funcs[q]):
+            if is_cwd_expr(n):
+                if only_reported(n):
+                    continue
+                g = pv.cwd_guard(q, n)
+                if g == 'unknown':
+                    defer(rep, '{}: the conditions under which the working directory ({}) is consulted are not understood: no verdict'.format(q, unparse(n)))
+                    continue
+                rep.check(g == 'guarded', rule + '.cwd', '{}: the working directory ({}) is consulted only when the input is a source string'.format(q, unparse(n)),
                           lambda q=q, n=n: Finding(rule + '.cwd', q, n, 'the working directory takes part in resolving includes of a *file*', line=n.lineno))
+    rep.analysed.update(roles)
     return sinks
 
 
-def check_reader(rep, facts, cg, pv):
-    fn = facts.funcs.get('read_lines')
-    if fn is None:
+def caller_object_params(pv, cg, reach, seeds):
+    """(qual, param) pairs whose argument may be the very list object the API caller passed (by-reference flow through calls)."""
+    seen = set(seeds)
+    todo = list(seeds)
+    while todo:
+        q, p = todo.pop()
+        for n in walk_fn(cg.funcs[q]):
+            if not isinstance(n, ast.Call):
+                continue
+            for callee in pv.callees(q, n):
+                if callee not in cg.funcs:
+                    continue
+                for param, args in pv.bind_call(callee, n, q).items():
+                    if any(pv.same_object(a, q, p) for a in args) and (callee, param) not in seen:
+                        seen.add((callee, param))
+                        todo.append((callee, param))
+    return seen
+
+
+def find_reader(pv, cg):
+    """The function that reads one source and calls itself for included files: `read_lines`, or the self-recursive function it
+    delegates to (a nested generator, a method of a reader object)."""
+    if 'read_lines' not in cg.funcs:
         raise AnalysisError('anchor vanished: read_lines')
-    # R14.2 recursion
-    rec = [n for n in ast.walk(fn) if isinstance(n, ast.Call) and dotted(n.func) == 'read_lines']
-    rep.analysed['recursive include calls'] = len(rec)
-    params = [a.arg for a in fn.args.args]
-    for c in rec:
-        k = pv.kind(c.args[0], 'read_lines') if c.args else 'Unknown'
-        kws = {kw.arg: kw.value for kw in c.keywords}
-        inc = kws.get('include')
-        dirs = kws.get('include_dirs')
-        # the search list handed down must be the caller's own include_dirs, untouched: a list that already holds this file's
-        # directory would make nested files search their ancestors' directories
-        dirs_param = next((a.arg for a in fn.args.args + fn.args.kwonlyargs if a.arg == 'include_dirs'), None)
-        rebound = [n for n in ast.walk(fn) if isinstance(n, ast.Name) and n.id == dirs_param and isinstance(n.ctx, ast.Store)]
-        mutated = [n for n in ast.walk(fn) if isinstance(n, ast.Call) and isinstance(n.func, ast.Attribute) and isinstance(n.func.value, ast.Name)
-                   and n.func.value.id == dirs_param and n.func.attr in ('append', 'extend', 'insert', 'remove', 'pop', 'clear', 'sort', 'reverse')]
-        mutated += [n for n in ast.walk(fn) if isinstance(n, ast.AugAssign) and isinstance(n.target, ast.Name) and n.target.id == dirs_param]
-        untouched = dirs is not None and isinstance(dirs, ast.Name) and dirs.id == dirs_param and not rebound and not mutated
-        ok = k == 'Resolved' and isinstance(inc, ast.Constant) and inc.value is True and untouched
-        rep.check(ok, 'R14.2.recursion', 'included file is read by its resolved path, include=True, same include_dirs',
-                  lambda c=c, k=k: Finding('R14.2.recursion', 'read_lines', c,
-                                           'the recursive read passes a {} path / does not pass include=True / changes include_dirs: nested includes are not resolved like top-level ones'.format(k), line=c.lineno))
-    # adjacent directory derived from the including file's path
-    dirs_built = [n for n in ast.walk(fn) if isinstance(n, ast.Call) and isinstance(n.func, ast.Attribute) and n.func.attr in ('append', 'add', 'insert')
-                  and isinstance(n.func.value, ast.Name) and 'dirs' in n.func.value.id]
-    good = False
-    for n in dirs_built:
-        if n.args and pv.kind(n.args[0], 'read_lines') == 'Dir':
-            # must be dirname(abspath(<the file being read>)) on the path branch
-            defs = [st for st in ast.walk(fn) if isinstance(st, ast.Assign) and isinstance(st.targets[0], ast.Name) and st.targets[0].id == unparse(n.args[0])]
-            exprs = [unparse(d.value) for d in defs]
-            if any('os.path.dirname(os.path.abspath({}))'.format(params[0]) == e for e in exprs):
-                good = True
-    rep.check(good, 'R14.2.adjacent', 'the directory of the including file is always searched',
-              lambda: Finding('R14.2.adjacent', 'read_lines', fn, 'the search path does not contain the directory of the file being read', line=fn.lineno))
-    # the search list starts from the caller's include_dirs (copied, never mutated in place)
-    cur = [st for st in ast.walk(fn) if isinstance(st, ast.Assign) and isinstance(st.targets[0], ast.Name) and 'dirs' in st.targets[0].id]
-    copied = any('include_dirs' in unparse(st.value) and ('deepcopy' in unparse(st.value) or 'list(' in unparse(st.value) or 'set(' in unparse(st.value) or 'tuple(' in unparse(st.value) or '+' in unparse(st.value) or '[:]' in unparse(st.value)) for st in cur)
-    rep.check(copied, 'R14.2.dirs-copied', 'the per-file search list is a copy of include_dirs',
-              lambda: Finding('R14.2.dirs-copied', 'read_lines', cur[0] if cur else fn, 'the caller\'s include_dirs list is extended in place: directories leak from one file to the next', line=fn.lineno))
-    # lookup: first existing join(dir, name) in order
-    lk = cg.funcs.get('read_lines.lookup')
-    if lk is not None:
-        rets = [n for n in ast.walk(lk) if isinstance(n, ast.Return) and n.value is not None and not (isinstance(n.value, ast.Constant) and n.value.value is None)]
-        k = [pv.kind(r.value, 'read_lines.lookup') for r in rets]
-        rep.check(bool(rets) and all(x == 'Resolved' for x in k), 'R14.1.lookup', 'lookup returns join(search dir, name)',
-                  lambda: Finding('R14.1.lookup', 'read_lines.lookup', rets[0] if rets else lk, 'the include search returns a path of kind {}'.format(k), line=lk.lineno))
-    # R14.3 splice in place
-    _, loop, paths = loop_paths(facts, fn)
-    n_inc = 0
+    cands = set()
+    inside = pv.reach('read_lines', dynamic=False)
+    for q in sorted(inside):
+        for n in walk_fn(cg.funcs[q]):
+            if isinstance(n, ast.Call):
+                for callee in pv.callees(q, n):
+                    if callee in cg.funcs and callee in inside and q in pv.reach(callee, dynamic=False):
+                        cands.add(callee)       # the call closes a cycle: callee is (re-)entered for an included file
+    if 'read_lines' in cands:
+        return 'read_lines'
+    if len(cands) == 1:
+        return next(iter(cands))
+    raise AnalysisError('read_lines: no single recursively entered reader function (candidates {})'.format(sorted(cands)))
+
+
+def desugar_generator(fn):
+    """A generator function as the list-building function it denotes: `yield x` -> out.append(x), `yield from e` -> out.extend(e),
+    out returned at the end (laziness aside, the produced sequence is the same).  The function is re-parsed from its own text, so
+    the analysed tree is not touched."""
+    tree = ast.parse(ast.unparse(fn))
+    new = tree.body[0]
+    ast.increment_lineno(new, fn.lineno - 1)
+    OUT = '__yielded'
+
+    def call(meth, arg, at):
+        return ast.copy_location(ast.Expr(value=ast.Call(func=ast.Attribute(value=ast.Name(id=OUT, ctx=ast.Load()), attr=meth, ctx=ast.Load()), args=[arg], keywords=[])), at)
+
+    class T(ast.NodeTransformer):
+        def visit_FunctionDef(self, node):
+            return node if node is not new else self.generic_visit(node)
+
+        def visit_Lambda(self, node):
+            return node
+
+        def visit_Expr(self, node):
+            v = node.value
+            if isinstance(v, ast.Yield):
+                return call('append', v.value or ast.Constant(value=None), node)
+            if isinstance(v, ast.YieldFrom):
+                return call('extend', v.value, node)
+            return node
+
+        def visit_Return(self, node):
+            if node.value is not None:
+                raise AnalysisError('{}: generator returns a value'.format(fn.name))
+            return ast.copy_location(ast.Return(value=ast.Name(id=OUT, ctx=ast.Load())), node)
+    T().visit(new)
+    if any(isinstance(n, (ast.Yield, ast.YieldFrom)) for n in ast.walk(new) if not isinstance(n, ast.Lambda)):
+        nested = [d for d in ast.walk(new) if isinstance(d, ast.FunctionDef) and d is not new]
+        if any(isinstance(n, (ast.Yield, ast.YieldFrom)) for n in ast.walk(new) if not any(n in ast.walk(d) for d in nested)):
+            raise AnalysisError('{}: a yield is used as an expression'.format(fn.name))
+    new.body.insert(0, ast.copy_location(ast.Assign(targets=[ast.Name(id=OUT, ctx=ast.Store())], value=ast.List(elts=[], ctx=ast.Load())), new.body[0]))
+    new.body.append(ast.copy_location(ast.Return(value=ast.Name(id=OUT, ctx=ast.Load())), new.body[-1]))
+    ast.fix_missing_locations(new)
+    for node in ast.walk(new):
+        for child in ast.iter_child_nodes(node):
+            child._parent = node
+    new._parent = None
+    return new
+
+
+def check_reader(rep, facts, cg, pv, reach):
+    reader = find_reader(pv, cg)
+    fn = cg.funcs[reader]
+    a = fn.args
+    pos = [x.arg for x in getattr(a, 'posonlyargs', []) + a.args]
+    is_method = '.' in reader and reader.split('.')[0] in facts.classes and bool(pos) and not fn.decorator_list
+    if is_method:
+        pos = pos[1:]
+    all_params = pos + [x.arg for x in a.kwonlyargs]
+    if not pos:
+        raise AnalysisError('{} takes no positional path parameter'.format(reader))
+    path_param = pos[0]
+    flag_params = [p for p in all_params if isinstance(pv.default_of(fn, p), ast.Constant) and pv.default_of(fn, p).value is False]
+    dir_params = [p for p in all_params if 'Dir' in pv.param_kinds(reader, p)]
+    rep.note('reader function: {}'.format(reader)) if reader != 'read_lines' else None
+    if not dir_params:
+        check_ambient_dirs(rep, facts, cg, pv, reader)
+
+    # R14.2 recursion: the included file is read by the path the search returned, as a file, with the caller's own -i list
+    n_rec = 0
+    for q in sorted(pv.reach(reader)):
+        for c in walk_fn(cg.funcs[q]):
+            if not (isinstance(c, ast.Call) and reader in pv.callees(q, c)):
+                continue
+            if reader != 'read_lines' and q not in pv.reach(reader):
+                continue
+            n_rec += 1
+            bound = pv.bind_call(reader, c, q)
+            if '**' in bound:
+                defer(rep, '{}: the recursive read is given **{}: its options are not understood'.format(q, unparse(bound['**'][0])[:60]))
+                continue
+            problems = []
+            ks = set()
+            for arg in bound.get(path_param, []):
+                ks |= pv.kinds(arg, q)
+            ks -= {'NoneK'}
+            if ks & BAD or not ks:
+                problems.append('passes a {} path'.format('/'.join(sorted(ks)) or 'missing'))
+            elif ks != {'Resolved'}:
+                defer(rep, '{}: the path handed to the recursive read could not be classified ({})'.format(q, sorted(ks)))
+            for p in flag_params:
+                vals = bound.get(p, [])
+                if not (vals and all(isinstance(v, ast.Constant) and v.value is True for v in vals)):
+                    problems.append('does not pass {}=True (an included path must be read as a file)'.format(p))
+            for p in dir_params:
+                dk = set()
+                for arg in bound.get(p, []):
+                    dk |= pv.kinds(arg, q)
+                dk -= {'NoneK'}
+                if dk - DIRKINDS:
+                    defer(rep, '{}: the directory list handed to the recursive read could not be classified ({})'.format(q, sorted(dk)))
+                elif 'Dir' not in dk:
+                    problems.append('does not hand the caller\'s include directories down ({} is {})'.format(p, '/'.join(sorted(dk)) or 'None'))
+                elif dk - {'Dir'}:
+                    problems.append('hands down a directory list that also holds {} (directories of this file leak into nested includes)'.format(
+                        '/'.join(sorted(dk - {'Dir'}))))
+            rep.check(not problems, 'R14.2.recursion', '{}: included file is read by its resolved path, as a file, with the caller\'s include directories'.format(q),
+                      lambda c=c, q=q, problems=problems: Finding('R14.2.recursion', q, c,
+                                                                  'the recursive read ' + '; '.join(problems) + ': nested includes are not resolved like top-level ones', line=c.lineno))
+    rep.analysed['recursive include calls'] = n_rec
+
+    # R14.2.adjacent: every include search ranges over the -i directories and the directory of the including file
+    n_search = 0
+    for q in reach:
+        for n in walk_fn(cg.funcs[q]):
+            first = None
+            if isinstance(n, ast.Call) and dotted(n.func) == 'os.path.join' and len(n.args) > 1 and not isinstance(n.args[0], ast.Starred):
+                first = n.args[0]
+            elif isinstance(n, ast.BinOp) and isinstance(n.op, ast.Div):
+                first = n.left
+            elif isinstance(n, ast.Call) and isinstance(n.func, ast.Attribute) and n.func.attr == 'joinpath' and n.args:
+                first = n.func.value
+            if first is not None:
+                ks = set(pv.kinds(first, q)) - {'NoneK'}
+                if not ks & DIRKINDS:
+                    continue
+                n_search += 1
+                missing = [k for k in ('Dir', 'AdjDir') if k not in ks]
+                if missing and ks & UNCLASSIFIED:
+                    defer(rep, '{}: the directories searched by {} could not be classified ({})'.format(q, unparse(n)[:60], sorted(ks)))
+                    continue
+                rep.check(not missing, 'R14.2.adjacent', '{}: the search ranges over the -i directories and the directory of the including file'.format(q),
+                          lambda q=q, n=n, ks=ks, missing=missing: Finding(
+                              'R14.2.adjacent', q, n, 'the include search joins the name with directories of kind {} only: {} not searched'.format(
+                                  '/'.join(sorted(ks)), ' and '.join({'Dir': 'the -i directories are', 'AdjDir': 'the directory of the file being read is'}[m] for m in missing)),
+                              line=n.lineno))
+    rep.analysed['include search sites'] = n_search
+
+    # R14.2.dirs-copied: the list object the API caller passed is never changed in place
+    shared = caller_object_params(pv, cg, reach, [('assemble', p) for p in pv.params(cg.funcs['assemble'])
+                                                     if 'Dir' in pv.param_kinds('assemble', p)])
+    muts = []
+    for q, p in sorted(shared):
+        for m in pv.inplace_mutations(q, p):
+            muts.append((q, p, m))
+    for q, p, m in muts:
+        rep.fail(Finding('R14.2.dirs-copied', q, stmt_of(m), 'the caller\'s include_dirs list is changed in place ({}): directories leak from one file / one '
+                         'assemble() call to the next'.format(unparse(m)[:80]), line=m.lineno), instance='{} {}'.format(q, unparse(m)[:60]))
+    if not muts:
+        rep.ok('R14.2.dirs-copied', 'the caller\'s include directory list is only read ({} by-reference uses followed)'.format(len(shared)))
+
+    check_splice(rep, facts, cg, fn, reader, is_method)
+
+
+def check_ambient_dirs(rep, facts, cg, pv, reader):
+    """The reader takes no directory-list parameter: the caller's -i directories reach it through a closure variable or an attribute
+    of the reader object, shared by all nesting levels.  Then that shared list must hold the caller's directories only: nothing
+    (the directory of a file, the cwd) may ever be added to it."""
+    seen = 0
+    sites = []
+    for q in sorted(pv.reach(reader)):
+        fq = cg.funcs[q]
+        for n in walk_fn(fq):
+            if isinstance(n, ast.Name) and isinstance(n.ctx, ast.Load) and n.id not in pv.params(fq):
+                if any(h[0] == 'free' for h, _ in pv.reaching(q, n)) and 'Dir' in pv.kinds(n, q):
+                    sites.append((q, n))
+            elif isinstance(n, ast.Attribute) and isinstance(n.ctx, ast.Load) and pv.attr_stores().get(n.attr) and 'Dir' in pv.kinds(n, q):
+                sites.append((q, n))
+    for q, shared in sites:
+        seen += 1
+        ks = set(pv.kinds(shared, q)) - {'NoneK'}
+        if ks & UNCLASSIFIED:
+            defer(rep, '{}: the shared include directory list {} could not be classified ({})'.format(reader, unparse(shared), sorted(ks)))
+            continue
+        rep.check(ks == {'Dir'}, 'R14.2.recursion', '{}: the include directories shared by all nesting levels ({}) hold the caller\'s directories only'.format(reader, unparse(shared)),
+                  lambda shared=shared, ks=ks: Finding('R14.2.recursion', reader, shared, 'the directory list shared by all nesting levels ({}) also receives {}: directories of one file '
+                                                       'leak into the files it includes'.format(unparse(shared), '/'.join(sorted(ks - {'Dir'}))), line=shared.lineno))
+    if not seen:
+        raise AnalysisError('{}: no parameter, closure variable or attribute carries the caller\'s include directories'.format(reader))
+
+
+def rec_calls(values, name='read_lines'):
+    out = []
+    for v in values:
+        for r in find_all(v, lambda t: (t[0] in ('call',) and t[1] == name) or (t[0] == 'mcall' and t[2] == name)):
+            if r not in out:
+                out.append(r)
+    return out
+
+
+REC_NAME = ['read_lines']      # simple name under which the reader calls itself (set per run)
+
+
+def parts_of(value):
+    """What a value spliced into the line list contributes: [('rec', call) | ('one', v) | ('opaque', v)]."""
+    v = strip_res(value)
+    if (v[0] == 'call' and v[1] == REC_NAME[0]) or (v[0] == 'mcall' and v[2] == REC_NAME[0]):
+        return [('rec', v)]
+    if v[0] in ('list', 'tuple'):
+        out = []
+        for x in v[1]:
+            out += parts_of(x[1]) if x[0] == 'star' else [('one', x)]
+        return out
+    if v[0] == 'bin' and v[1] == '+':
+        return parts_of(v[2]) + parts_of(v[3])
+    if v[0] == 'call' and v[1] in ('list', 'tuple') and len(v[2]) == 1 and not v[3]:
+        return parts_of(v[2][0])
+    return [('opaque', v)]
+
+
+def implies_blank(test, pol):
+    """The outcome `pol` of `test` holds exactly when a piece of text is empty after stripping (`not x.strip()`,
+    `len(x.strip()) == 0`, `x.strip() == ''`, `not x.split()` ...): decided by evaluating the test for an empty and a non-empty
+    stripped text."""
+    from ..symeval import SymEval, Undecided
+    pieces = find_all(test, lambda v: v[0] == 'mcall' and v[2] in ('strip', 'lstrip', 'rstrip', 'split') and not v[3] and not v[4])
+    for m in pieces:
+        empty, full = ('', 'x') if m[2] != 'split' else ([], ['x'])
+        try:
+            a = bool(SymEval(None, {m: empty}).ev(test))
+            b = bool(SymEval(None, {m: full}).ev(test))
+        except (Undecided, AttributeError):
+            continue
+        if a == pol and b != pol:
+            return True
+    return False
+
+
+def judge_contribution(rep, where, cond, recs, parts, node, fallback_line, path=None):
+    """One path of the per-line processing: an include line contributes exactly the lines of the included file, any other line
+    itself - nothing only when the line is blank.  Returns 'include' | 'plain' | 'opaque'."""
+    line = getattr(node, 'lineno', fallback_line)
+    if any(k == 'opaque' for k, _ in parts):
+        defer(rep, '{}: what `{}` adds to the line list is not understood: no verdict'.format(where, show(next(v for k, v in parts if k == 'opaque'))[:80]))
+        return 'opaque'
+    if recs:
+        ok = len(recs) == 1 and parts == [('rec', recs[0])]
+        rep.check(ok, 'R14.3.splice', 'include path [{}]: the lines of the included file, and nothing else, are added at the position of the include line'.format(cond[-60:]),
+                  lambda: Finding('R14.3.splice', where, node, 'the lines of an included file are not spliced in (once, alone) at the position of the include line', line=line))
+        return 'include'
+    if not parts and path is not None and not any(implies_blank(t, pol) for t, pol, _ in path.conds):
+        # a non-blank line (an include line among them) that contributes nothing
+        other = [e for e in path.events if (e[0] == 'mcall' and e[2] in MUTATORS and e[2] not in ('add', 'discard', 'update', 'setdefault')) or e[0] in ('setitem', 'augstore')]
+        if other:
+            defer(rep, '{}: a line contributes nothing on the path [{}] but other containers change: not understood'.format(where, cond[-80:]))
+            return 'opaque'
+        rep.fail(Finding('R14.3.splice', where, node, 'on the path [{}] a non-blank source line (an include line, if the path handles one) contributes nothing to the line '
+                         'list: it is dropped instead of being kept / replaced by the included lines'.format(cond[-100:]), line=line), instance='dropped ' + cond[-60:])
+        return 'plain'
+    ok = len(parts) <= 1 and all(k == 'one' for k, _ in parts)
+    rep.check(ok, 'R14.3.splice', 'ordinary line: kept once, in order', lambda: Finding('R14.3.splice', where, node, 'source lines are not kept exactly once in order', line=line),
+              nontrivial=False)
+    return 'plain'
+
+
+def check_index_iteration(loop, paths):
+    """A `while i < len(rows)` loop visits the rows in order, each once, iff i starts at 0, is advanced by exactly 1 on every path
+    through the body, and rows are only read at the not yet advanced index.  Anything else is not understood (AnalysisError)."""
+    from ..immsites import contains
+    if not paths:
+        raise AnalysisError('read_lines: the reader loop has no path')
     for p in paths:
+        test = p.loop_test
+        if not (test[0] == 'cmp' and test[1] in ('<', '!=') and test[2][0] == 'lv' and test[3][0] == 'call' and test[3][1] == 'len' and len(test[3][2]) == 1):
+            raise AnalysisError('read_lines: while loop over {} is not an index iteration'.format(show(test)[:80]))
+        idx, rows = test[2], test[3][2][0]
+        if find_all(rows, lambda t: t[0] == 'lv') or p.pre_env.get(idx[1]) != ('const', 0):
+            raise AnalysisError('read_lines: the index of the reader loop does not start at 0 over a fixed list')
         if p.end == 'raise':
             continue
-        apps = [e for e in p.events if e[0] == 'mcall' and e[2] in ('append', 'extend', 'insert') and e[1][0] in ('lv', 'name')]
-        calls = [e for e in p.events if e[0] == 'value' and e[1][0] == 'call' and e[1][1] == 'read_lines']
-        if calls:
-            n_inc += 1
-            ok = len(apps) == 1 and apps[0][2] == 'extend' and apps[0][3][0] == calls[0][1]
-            rep.check(ok, 'R14.3.splice', 'include path: lines.extend(lines of the included file) at the position of the include line',
-                      lambda p=p: Finding('R14.3.splice', 'read_lines', calls[0][2], 'the lines of an included file are not spliced in at the position of the include line', line=calls[0][2].lineno))
-        elif p.end in ('fallthrough',) and apps:
-            ok = all(a[2] == 'append' for a in apps) and len(apps) == 1
-            rep.check(ok, 'R14.3.splice', 'ordinary line: appended once, in order',
-                      lambda: Finding('R14.3.splice', 'read_lines', apps[0][5], 'source lines are not appended exactly once in order', line=apps[0][5].lineno), nontrivial=False)
+        augs = [e for e in p.events if e[0] == 'aug' and e[1] == idx[1]]
+        if len(augs) != 1 or augs[0][2] != '+' or augs[0][3] != ('const', 1):
+            raise AnalysisError('read_lines: the index of the reader loop is not advanced by exactly one on the path [{}]'.format(p.cond_text()[-80:]))
+        values = [part for ev in p.events for part in ev[1:] if isinstance(part, tuple)] + [t for t, _, _ in p.conds]
+        for v in values:
+            for t in find_all(v, lambda t: t[0] == 'sub' and (t[1] == rows or contains(t[2], idx))):
+                if t != ('sub', rows, idx):
+                    raise AnalysisError('read_lines: rows are read at {} (not the current index)'.format(show(t)[:60]))
+
+
+def check_splice(rep, facts, cg, fn, reader='read_lines', is_method=False):
+    """R14.3: the returned list is the in-order concatenation, over the source lines, of what each line contributes."""
+    REC_NAME[0] = fn.name
+    if any(isinstance(n, (ast.Yield, ast.YieldFrom)) for n in walk_fn(fn)):
+        fn = desugar_generator(fn)
+    rec_calls_ = lambda values: rec_calls(values, REC_NAME[0])
+    ret = [st for st in fn.body if isinstance(st, ast.Return) and st.value is not None]
+    if not ret:
+        raise AnalysisError('read_lines: no top-level return')
+    value = ret[-1].value
+    result = value.id if isinstance(value, ast.Name) else None
+    loops = [st for st in fn.body if isinstance(st, (ast.For, ast.While))]
+    n_inc = 0
+    if result is not None and loops:
+        # loop form: the list is grown inside the (first) top-level loop
+        loop, paths = loop_paths_h(facts, fn, opaque={fn.name}, self_class=reader.split('.')[0] if is_method else None)
+        if isinstance(loop, ast.While):
+            check_index_iteration(loop, paths)
+        is_result = lambda v: v in (('lv', result), ('name', result))
+        for p in paths:
+            if p.end == 'raise':
+                continue
+            recs = rec_calls_([part for ev in p.events for part in ev[1:]])
+            parts = []
+            node = None
+            unknown_mut = None
+            for e in p.events:
+                if e[0] == 'mcall' and is_result(e[1]) and e[2] in MUTATORS:
+                    node = node or e[5]
+                    if e[2] == 'append' and len(e[3]) == 1:
+                        parts.append(('one', e[3][0]))
+                    elif e[2] == 'extend' and len(e[3]) == 1:
+                        parts += parts_of(e[3][0])
+                    else:
+                        unknown_mut = e
+                elif e[0] == 'aug' and e[1] == result:
+                    node = node or e[4]
+                    if e[2] == '+':
+                        parts += parts_of(e[3])
+                    else:
+                        unknown_mut = e
+            if unknown_mut is not None:
+                continue        # reported by R14.3.order below
+            if judge_contribution(rep, reader, p.cond_text(), recs, parts, node or p.end_node or loop, fn.lineno, path=p) == 'include':
+                n_inc += 1
+        bad = [n for n in ast.walk(fn) if isinstance(n, ast.Call) and isinstance(n.func, ast.Attribute) and n.func.attr in ('insert', 'sort', 'reverse', 'pop', 'remove', 'clear')
+               and isinstance(n.func.value, ast.Name) and n.func.value.id == result]
+        bad += [n for n in ast.walk(loop) if isinstance(n, ast.Name) and isinstance(n.ctx, ast.Store) and n.id == result and not isinstance(getattr(n, '_parent', None), ast.AugAssign)]
+        rep.check(not bad, 'R14.3.order', 'the line list is built by append/extend only and never rebound inside the loop',
+                  lambda: Finding('R14.3.order', 'read_lines', stmt_of(bad[0]), 'the line list is reordered / rebuilt inside the reader loop', line=bad[0].lineno), nontrivial=False)
+    else:
+        # flat-map form: [x for <line> in <lines> ... for x in contribution(<line>)]
+        if result is not None:
+            defs = [st for st in fn.body if isinstance(st, ast.Assign) and any(isinstance(t, ast.Name) and t.id == result for t in st.targets)]
+            if len(defs) != 1:
+                raise AnalysisError('read_lines: the returned list is neither grown in a loop nor built by one comprehension')
+            value = defs[0].value
+        g = value.generators[-1] if isinstance(value, ast.ListComp) and len(value.generators) >= 2 else None
+        if not (g is not None and isinstance(value.elt, ast.Name) and isinstance(g.target, ast.Name) and g.target.id == value.elt.id and not g.ifs
+                and isinstance(g.iter, ast.Call) and isinstance(g.iter.func, ast.Name)):
+            raise AnalysisError('read_lines: the returned list is neither grown in a loop nor a flattening comprehension over a per-line function')
+        target = cg.local_defs(reader).get(g.iter.func.id) or (g.iter.func.id if g.iter.func.id in facts.funcs else None)
+        if target is None:
+            raise AnalysisError('read_lines: per-line function {} not found'.format(g.iter.func.id))
+        w, paths = function_paths(facts, cg.funcs[target])
+        for p in paths:
+            if p.end == 'raise':
+                continue
+            recs = rec_calls_([part for ev in p.events for part in ev[1:]])
+            rv = [e for e in p.events if e[0] == 'return']
+            if not rv:
+                defer(rep, '{}: a path returns nothing to flatten'.format(target))
+                continue
+            if judge_contribution(rep, target, p.cond_text(), recs, parts_of(rv[-1][1]), rv[-1][2], fn.lineno, path=p) == 'include':
+                n_inc += 1
     rep.analysed['include paths through the reader loop'] = n_inc
-    bad = [n for n in ast.walk(fn) if isinstance(n, ast.Call) and isinstance(n.func, ast.Attribute) and n.func.attr in ('insert', 'sort', 'reverse')
-           and isinstance(n.func.value, ast.Name) and n.func.value.id == 'lines']
-    rep.check(not bad, 'R14.3.order', 'lines list built by append/extend only',
-              lambda: Finding('R14.3.order', 'read_lines', bad[0], 'the line list is reordered', line=bad[0].lineno), nontrivial=False)
-    # include detection strips comments / quotes before resolving (name only)
-    # the include line itself is not kept
-    for p in paths:
-        calls = [e for e in p.events if e[0] == 'value' and e[1][0] == 'call' and e[1][1] == 'read_lines']
-        if calls:
-            kept = [e for e in p.events if e[0] == 'mcall' and e[2] == 'append' and e[3] and e[3][0][0] == 'new' and e[3][0][1] == 'Line']
-            rep.check(not kept, 'R14.3.splice', 'the include line itself contributes no line',
-                      lambda: Finding('R14.3.splice', 'read_lines', calls[0][2], 'the include line is kept in addition to the included text', line=calls[0][2].lineno), nontrivial=False)
 
 
-def check_cli(rep, facts):
-    fn = facts.funcs.get('cli_main')
-    if fn is None:
+def strip_res(v):
+    while isinstance(v, tuple) and v and v[0] == 'res':
+        v = v[3]
+    return v
+
+
+def check_cli(rep, facts, cg, pv):
+    if 'cli_main' not in cg.funcs:
         raise AnalysisError('anchor vanished: asm.cli_main')
-    src = unparse(fn)
-    calls = [n for n in ast.walk(fn) if isinstance(n, ast.Call) and dotted(n.func) == 'assemble']
+    calls = []
+    for q in sorted(pv.reach('cli_main')):
+        for n in walk_fn(cg.funcs[q]):
+            if isinstance(n, ast.Call) and 'assemble' in pv.callees(q, n):
+                calls.append((q, n))
     if not calls:
-        raise AnalysisError('anchor vanished: assemble call in cli_main')
-    c = calls[0]
-    arg0 = c.args[0]
-    defs = [st.value for st in ast.walk(fn) if isinstance(st, ast.Assign) and isinstance(st.targets[0], ast.Name) and isinstance(arg0, ast.Name) and st.targets[0].id == arg0.id]
-    ok = bool(defs) and all(isinstance(d, ast.Call) and dotted(d.func) == 'os.path.abspath' for d in defs)
-    rep.check(ok, 'R14.4.cli', 'the input path is made absolute before assembling',
-              lambda: Finding('R14.4.cli', 'cli_main', c, 'the input path is handed to assemble() without os.path.abspath', line=c.lineno))
-    apps = [n for n in ast.walk(fn) if isinstance(n, ast.Call) and isinstance(n.func, ast.Attribute) and n.func.attr == 'append'
-            and isinstance(n.func.value, ast.Name) and n.func.value.id == 'include_dirs']
-    for a in apps:
-        arg = a.args[0]
-        good = isinstance(arg, ast.Call) and dotted(arg.func) == 'os.path.abspath'
-        if isinstance(arg, ast.Name):
-            d2 = [st.value for st in ast.walk(fn) if isinstance(st, ast.Assign) and isinstance(st.targets[0], ast.Name) and st.targets[0].id == arg.id]
-            good = bool(d2) and all('__file__' in unparse(x) and 'abspath' in unparse(x) or ('os.path.join' in unparse(x)) for x in d2)
-            if good:
-                roots = [st.value for st in ast.walk(fn) if isinstance(st, ast.Assign) and isinstance(st.targets[0], ast.Name) and st.targets[0].id == 'root']
-                good = bool(roots) and all('__file__' in unparse(x) and 'abspath' in unparse(x) for x in roots)
-        rep.check(good, 'R14.4.cli', 'include dir `{}` is absolute'.format(unparse(arg)),
-                  lambda a=a: Finding('R14.4.cli', 'cli_main', a, 'an include directory is stored relative to the working directory (no abspath / not derived from __file__)', line=a.lineno))
-    rep.analysed['cli include dir sources'] = len(apps)
+        raise AnalysisError('anchor vanished: assemble call reachable from cli_main')
+    afn = cg.funcs['assemble']
+    path_param = pv.params(afn)[0]
+    dir_params = [p for p in pv.params(afn) if 'Dir' in pv.param_kinds('assemble', p)]
+    n_sources = 0
+    for q, c in calls:
+        bound = pv.bind_call('assemble', c, q)
+        if '**' in bound:
+            defer(rep, '{}: assemble() is given **{}: its options are not understood'.format(q, unparse(bound['**'][0])[:60]))
+            continue
+        for arg in bound.get(path_param, []):
+            ok = pv.is_abs(arg, q)
+            if not ok and not pv.understood_relative(arg, q):
+                defer(rep, '{}: whether the input path `{}` is absolute is not understood'.format(q, unparse(arg)[:60]))
+                continue
+            rep.check(ok, 'R14.4.cli', '{}: the input path is made absolute before assembling'.format(q),
+                      lambda c=c, q=q: Finding('R14.4.cli', q, c, 'the input path is handed to assemble() without os.path.abspath', line=c.lineno))
+        for p in dir_params:
+            for arg in bound.get(p, []):
+                sources = []
+                pv.is_abs(arg, q, sources)
+                n_sources += len(sources)
+                for node, ok, nq in sources:
+                    if not ok and not pv.understood_relative(node, nq):
+                        defer(rep, '{}: whether the include directory `{}` is absolute is not understood'.format(nq or q, unparse(node)[:60]))
+                        continue
+                    rep.check(ok, 'R14.4.cli', 'include dir `{}` is absolute'.format(unparse(node)),
+                              lambda node=node, q=q: Finding('R14.4.cli', q, stmt_of(node), 'an include directory is stored relative to the working directory '
+                                                             '(`{}` is neither os.path.abspath(...) nor built from an absolute directory)'.format(unparse(node)[:80]), line=node.lineno))
+                    if nq is not None:
+                        check_every_dir_kept(rep, facts, pv, node, nq)
+    rep.analysed['cli include dir sources'] = n_sources
+
+
+def check_every_dir_kept(rep, facts, pv, source, q):
+    """R14.4.all-dirs: a directory list element built from the elements of a user-given list (the -i directories): every element
+    of that list must end up in the search list (validation may refuse, i.e. raise, but not silently skip)."""
+    from ..pathwalk import Walker, PathState
+    fn = pv.fn_of(q)
+    child, p = source, getattr(source, '_parent', None)
+    while p is not None and p is not fn:
+        if isinstance(p, (ast.ListComp, ast.SetComp, ast.GeneratorExp)):
+            gens = [g for g in p.generators if 'UserGiven' in pv.kinds(g.iter, q)]
+            if gens:
+                filt = [c for g in p.generators for c in g.ifs]
+                if filt:
+                    defer(rep, '{}: the -i directories are filtered by `{}`: not understood'.format(q, unparse(filt[0])[:60]))
+                else:
+                    rep.ok('R14.4.all-dirs', '{}: every element of `{}` is kept'.format(q, unparse(gens[0].iter)[:40]))
+                return
+        if isinstance(p, ast.For) and any(child is s for s in p.body) and 'UserGiven' in pv.kinds(p.iter, q):
+            grow = stmt_of(source)
+            st = PathState()
+            for a in pv.params(fn):
+                st.env[a] = ('name', a)
+            paths = Walker(facts).run(p.body, st)
+            for path in paths:
+                if path.end in ('raise', 'return'):
+                    continue
+                kept = any(ev[-1] is grow for ev in path.events if isinstance(ev[-1], ast.AST))
+                if kept and path.end != 'break':
+                    continue
+                # a path on which the directory is not added: harmless only for a directory that was already added
+                skips = [(t, pol) for t, pol, _ in path.conds if t[0] == 'cmp' and t[1] in ('in', 'not in') and (t[1] == 'in') == pol]
+                verdict = 'dropped'
+                for t, pol in skips:
+                    holder = t[3]
+                    if holder[0] == 'name':
+                        init = empty_initialised(pv, fn, q, holder[1], p)
+                        verdict = {True: 'duplicate', False: 'seeded'}.get(init, verdict)
+                    elif holder[0] != 'name':
+                        # the walker saw the initial value of the collection
+                        verdict = 'duplicate' if holder in (('set', ()), ('list', ()), ('dict', ()), ('call', 'set', (), ())) else 'seeded'
+                if verdict == 'duplicate':
+                    continue
+                if verdict == 'dropped' and skips:
+                    defer(rep, '{}: a -i directory is skipped on the path [{}]: not understood'.format(q, path.cond_text()[-80:]))
+                    continue
+                node = path.end_node or p
+                rep.fail(Finding('R14.4.all-dirs', q, node, 'on the path [{}] a directory given with -i is not added to the search list{}: the include search then '
+                                 'depends on how / from where the directory was spelled'.format(
+                                     path.cond_text()[-100:], ' (the collection of already seen directories does not start empty)' if verdict == 'seeded' else ''),
+                                 line=getattr(node, 'lineno', p.lineno)), instance='dropped ' + path.cond_text()[-60:])
+            rep.ok('R14.4.all-dirs', '{}: the loop over `{}` was followed'.format(q, unparse(p.iter)[:40]), nontrivial=False)
+            return
+        child, p = p, getattr(p, '_parent', None)
+
+
+def empty_initialised(pv, fn, q, name, loop):
+    """The local `name` is bound before `loop` to an empty collection (True), to a non-empty literal collection (False), or to
+    something else / nothing (None)."""
+    for st in fn.body:
+        if st is loop:
+            break
+        if isinstance(st, ast.Assign) and any(isinstance(t, ast.Name) and t.id == name for t in st.targets):
+            v = st.value
+            if (isinstance(v, (ast.List, ast.Set, ast.Tuple)) and not v.elts) or (isinstance(v, ast.Dict) and not v.keys) \
+                    or (isinstance(v, ast.Call) and dotted(v.func) in ('set', 'list', 'dict') and not v.args and not v.keywords):
+                return True
+            if isinstance(v, (ast.List, ast.Set, ast.Tuple, ast.Dict)) or (isinstance(v, ast.Call) and dotted(v.func) in ('set', 'list', 'dict', 'frozenset')):
+                return False
+            return None
+    return None
 
 
 def run(repo, tier):
     facts = Facts(repo.asm)
     rep = Report('C14', LEVEL,
-                 'cwd-sensitivity effect analysis: every filesystem call reachable from assemble() is classified by the provenance kind of '
-                 'its path argument (Resolved = search dir joined with the name; UserGiven = the caller\'s own path; RawToken = text from '
-                 'the source line); only the first two may reach a sink, and os.getcwd() may be consulted only on the source-string branch.  '
-                 'The recursive read passes the resolved path, include=True and unchanged include_dirs; the adjacent directory is derived '
-                 'from the including file at each depth; included lines are spliced at the position of the include line (append/extend only); '
-                 'the CLI makes the input path and every -i directory absolute.')
+                 'cwd-sensitivity effect analysis: every filesystem call reachable from assemble() (call edges, closures, functions used as '
+                 'values) is classified by the provenance kinds of its path argument (Resolved = search dir joined with the name; UserGiven = '
+                 'the caller\'s own path; RawToken = text cut out of a source line; Literal), computed by a reaching-definitions dataflow with '
+                 'interprocedural summaries; only the first two may reach a sink, and os.getcwd() may be consulted only where '
+                 'os.path.exists(<caller\'s input>) was false.  The recursive read passes the resolved path, as a file, and a directory list '
+                 'holding the caller\'s -i directories only; every include search ranges over the -i directories and the directory of the '
+                 'including file; the caller\'s list object is never changed in place; included lines are spliced at the position of the '
+                 'include line (append/extend only); the CLI hands assemble() an absolute input path and absolute directories.')
     rep.trusted_base = ['CPython ast', 'bbverif.prov kind rules', 'bbverif.callgraph / pathwalk']
     rep.not_decided = ['equality of the resulting binaries / labels / constants (follows from splice order + purity of later passes, C16, not re-proved end to end)',
                        'which directory wins when the same name exists in several']
     cg = CallGraph(facts)
     pv = Prov(facts, cg)
-    check_sinks(rep, facts, cg, pv, 'R14.1.provenance')
-    check_reader(rep, facts, cg, pv)
-    check_cli(rep, facts)
-    rep.floor('filesystem sinks reachable from assemble', 5)
+    if 'assemble' not in cg.funcs:
+        raise AnalysisError('anchor vanished: assemble')
+    reach = sorted(pv.reach('assemble'))
+    check_sinks(rep, facts, cg, pv, 'R14.1.provenance', reach)
+    check_reader(rep, facts, cg, pv, reach)
+    check_cli(rep, facts, cg, pv)
+    raise_deferred(rep)
+    # what the rule needs to have seen (not a count of syntactic sites: a refactor may merge probes): the source file and the
+    # include_bytes content are read, the caller's own path is probed / opened, the search result is probed and measured / read
+    rep.floor('filesystem sinks reachable from assemble', 4)
+    rep.floor('sinks that read a file', 2)
+    rep.floor('sinks given the caller\'s own path', 1)
+    rep.floor('sinks given a path the include search returned', 2)
     rep.floor('recursive include calls', 1)
+    rep.floor('include search sites', 1)
     rep.floor('include paths through the reader loop', 1)
     rep.floor('cli include dir sources', 2)
     return rep
